@@ -185,6 +185,14 @@ def equilibrium_range_values(
         return e, a1, b1
 
     elif method == "mean":
+        if not spectrum.dims_space_time:
+            # A single spectrum without leading dimensions: the indexing below needs
+            # at least one leading dimension.
+            e, a1, b1 = equilibrium_range_values(
+                spectrum.flatten(), method, fmax, power, number_of_bins
+            )
+            return e[0], a1[0], b1[0]
+
         scaled_spec = spectrum.variance_density * spectrum.frequency**power
 
         # Find fmin/fmax
